@@ -75,3 +75,22 @@ Print Assumptions C10_decrypt_wellformed.
 Print Assumptions C10_encrypt_surjective.
 Print Assumptions C10_decrypt_surjective.
 Print Assumptions C10_bijection.
+
+(** audit C09-F1 / C10 (work package audit-leftovers): the word-level laws behind the inverse, with the
+    textbook arithmetic operations of Proofs/LeftoversThreefish.v ([C09_arith_ops_textbook]):
+    [inv_mix] undoes [mix] and conversely, and the model's [mix]/[inv_mix] are the arithmetic ones on words *)
+From CC Require Proofs.LeftoversThreefish.
+
+Theorem C10_mix_laws_arith :
+  forall r x0 x1, (r < 64)%N -> (x0 < 2 ^ 64)%N -> (x1 < 2 ^ 64)%N ->
+  inv_mix LeftoversThreefish.sub64a N.lxor LeftoversThreefish.rotr64a r
+    (mix LeftoversThreefish.add64a N.lxor LeftoversThreefish.rotl64a r (x0, x1)) = (x0, x1)
+  /\ mix LeftoversThreefish.add64a N.lxor LeftoversThreefish.rotl64a r
+       (inv_mix LeftoversThreefish.sub64a N.lxor LeftoversThreefish.rotr64a r (x0, x1)) = (x0, x1)
+  /\ mix add64 N.lxor rotl64 r (x0, x1)
+     = mix LeftoversThreefish.add64a N.lxor LeftoversThreefish.rotl64a r (x0, x1)
+  /\ inv_mix sub64 N.lxor rotr64 r (x0, x1)
+     = inv_mix LeftoversThreefish.sub64a N.lxor LeftoversThreefish.rotr64a r (x0, x1).
+Proof. exact LeftoversThreefish.mix_laws_arith. Qed.
+
+Print Assumptions C10_mix_laws_arith.
